@@ -436,7 +436,16 @@ def _typed_args(E, c, bound, st):
             if isinstance(v, PyObj) and not isinstance(v.obj, (int, str, bool, type(None), list, tuple)):
                 out[n] = v
                 continue
-            v2 = E.coerce(v, ty, st)
+            try:
+                v2 = E.coerce(v, ty, st)
+            except OutsideSubset as e:
+                if c.trusted and isinstance(v, SVal) and v.ty is not OPAQUE and not st.spec:
+                    # the argument's type violates the parameter type of an ASSUMED contract: the guarantees that were
+                    # proved through that contract no longer apply -> failed call-site precondition
+                    E.oblige(st, f"call-pre:{c.qualname}[argument `{n}` has type {v.ty}, the assumed contract requires {ty}]", z3.BoolVal(False))
+                    v2 = E.fresh(ty, "illtyped_" + n)
+                else:
+                    raise
             out[n] = SVal(v2.t, v2.ty, v.origin if isinstance(v, SVal) else None)
         else:
             out[n] = v
